@@ -25,6 +25,7 @@ package dkg_proposal_fsm
 //@ spec func rqCommit(args []interface{}) requests.DKGProposalCommitConfirmationRequest = args[0].(requests.DKGProposalCommitConfirmationRequest)
 
 //@ func (*DKGProposalFSM).actionCommitConfirmationReceived
+//@   ensures[C19.payload.same] m.payload == old(m.payload)
 //@   safety C18
 //@   requires wfDkg(m) && injDkg(dkgQ(m.payload))
 //@   ensures[C05.count] err == nil ==> dkgCntOldQ(m.payload, internal.CommitConfirmed) == old(dkgCnt(m.payload, internal.CommitConfirmed)) + 1 && len(dkgQ(m.payload)) == old(len(dkgQ(m.payload)))
@@ -40,6 +41,7 @@ package dkg_proposal_fsm
 
 
 //@ func (*DKGProposalFSM).actionValidateDkgProposalAwaitCommits
+//@   ensures[C19.payload.same] m.payload == old(m.payload)
 //@   safety C18
 //@   requires wfDkg(m) && dkgQ(m.payload) != nil && injDkg(dkgQ(m.payload))
 //@   ensures[C05.noerr] err == nil
@@ -70,6 +72,7 @@ package dkg_proposal_fsm
 //@ spec func rqDeal(args []interface{}) requests.DKGProposalDealConfirmationRequest = args[0].(requests.DKGProposalDealConfirmationRequest)
 
 //@ func (*DKGProposalFSM).actionDealConfirmationReceived
+//@   ensures[C19.payload.same] m.payload == old(m.payload)
 //@   safety C18
 //@   requires wfDkg(m) && injDkg(dkgQ(m.payload))
 //@   ensures[C05.count] err == nil ==> dkgCntOldQ(m.payload, internal.DealConfirmed) == old(dkgCnt(m.payload, internal.DealConfirmed)) + 1 && len(dkgQ(m.payload)) == old(len(dkgQ(m.payload)))
@@ -85,6 +88,7 @@ package dkg_proposal_fsm
 
 
 //@ func (*DKGProposalFSM).actionValidateDkgProposalAwaitDeals
+//@   ensures[C19.payload.same] m.payload == old(m.payload)
 //@   safety C18
 //@   requires wfDkg(m) && dkgQ(m.payload) != nil && injDkg(dkgQ(m.payload))
 //@   ensures[C05.noerr] err == nil
@@ -115,6 +119,7 @@ package dkg_proposal_fsm
 //@ spec func rqResponse(args []interface{}) requests.DKGProposalResponseConfirmationRequest = args[0].(requests.DKGProposalResponseConfirmationRequest)
 
 //@ func (*DKGProposalFSM).actionResponseConfirmationReceived
+//@   ensures[C19.payload.same] m.payload == old(m.payload)
 //@   safety C18
 //@   requires wfDkg(m) && injDkg(dkgQ(m.payload))
 //@   ensures[C05.count] err == nil ==> dkgCntOldQ(m.payload, internal.ResponseConfirmed) == old(dkgCnt(m.payload, internal.ResponseConfirmed)) + 1 && len(dkgQ(m.payload)) == old(len(dkgQ(m.payload)))
@@ -130,6 +135,7 @@ package dkg_proposal_fsm
 
 
 //@ func (*DKGProposalFSM).actionValidateDkgProposalAwaitResponses
+//@   ensures[C19.payload.same] m.payload == old(m.payload)
 //@   safety C18
 //@   requires wfDkg(m) && dkgQ(m.payload) != nil && injDkg(dkgQ(m.payload))
 //@   ensures[C05.noerr] err == nil
@@ -160,6 +166,7 @@ package dkg_proposal_fsm
 //@ spec func rqMasterKey(args []interface{}) requests.DKGProposalMasterKeyConfirmationRequest = args[0].(requests.DKGProposalMasterKeyConfirmationRequest)
 
 //@ func (*DKGProposalFSM).actionMasterKeyConfirmationReceived
+//@   ensures[C19.payload.same] m.payload == old(m.payload)
 //@   safety C18
 //@   requires wfDkg(m) && injDkg(dkgQ(m.payload))
 //@   ensures[C05.count] err == nil ==> dkgCntOldQ(m.payload, internal.MasterKeyConfirmed) == old(dkgCnt(m.payload, internal.MasterKeyConfirmed)) + 1 && len(dkgQ(m.payload)) == old(len(dkgQ(m.payload)))
@@ -180,6 +187,7 @@ package dkg_proposal_fsm
 
 
 //@ func (*DKGProposalFSM).actionValidateDkgProposalAwaitMasterKey
+//@   ensures[C19.payload.same] m.payload == old(m.payload)
 //@   safety C18
 //@   requires wfDkg(m) && dkgQ(m.payload) != nil && injDkg(dkgQ(m.payload))
 //@   ensures[C05.noerr] err == nil
@@ -217,6 +225,7 @@ package dkg_proposal_fsm
 //@ spec func errPhase(ev fsm.Event, before internal.DKGParticipantStatus, after internal.DKGParticipantStatus) bool = (ev == EventDKGCommitConfirmationError && before == internal.CommitAwaitConfirmation && after == internal.CommitConfirmationError) || (ev == EventDKGDealConfirmationError && before == internal.DealAwaitConfirmation && after == internal.DealConfirmationError) || (ev == EventDKGResponseConfirmationError && before == internal.ResponseAwaitConfirmation && after == internal.ResponseConfirmationError) || (ev == EventDKGMasterKeyConfirmationError && before == internal.MasterKeyAwaitConfirmation && after == internal.MasterKeyConfirmationError)
 
 //@ func (*DKGProposalFSM).actionConfirmationError
+//@   ensures[C19.payload.same] m.payload == old(m.payload)
 //@   safety C18
 //@   requires wfDkg(m)
 //@   ensures[C05.reject,C18.reject] err != nil ==> dkgViewsSame(m)
@@ -226,6 +235,7 @@ package dkg_proposal_fsm
 
 // ---- start of the DKG: one awaiting record per invited participant
 //@ func (*DKGProposalFSM).actionInitDKGProposal
+//@   ensures[C19.payload.same] m.payload == old(m.payload)
 //@   safety C18
 //@   requires m != nil && m.payload != nil && wfSigQ(m.payload) && (0 in sigQ(m.payload)) && injSig(sigQ(m.payload))
 //@   requires m.payload.DKGProposalPayload != nil ==> wfDkgQ(m.payload)
